@@ -17,7 +17,7 @@ from mc.refs import oalfam as F
 NEEDS_BRIDGEPOINT = True
 PROP = 'c07'
 POSITIONS = False
-BUDGET_S = {'quick': 200, 'thorough': 1500}
+BUDGET_S = {'quick': 3600, 'thorough': 14400}
 ASSUMPTIONS = [
     'parser tables are regenerated from the grammar of the working tree (bootstrap), never the stale files in /repo',
     'a namespace and its "::" are one lexical unit (no gap is inserted there); "//" comments end with a line break',
